@@ -20,11 +20,13 @@ import (
 // ---- neutral representation of a proof node set (what goes to the Lean driver, what is tampered
 // with, what is converted back into the real node types of either trie) -----------------------
 
-// Child of a proof node. Tag: 'h' hash node, 'v' value node, 'n' nil (trie2 only; legacy nodes
-// carry plain felts = 'h').
+// Child of a proof node. Tag: 'h' hash node, 'v' value node, 'n' nil, 'e' embedded node with a cached
+// hash flag (F = the flag), 'p' embedded node without one (F = the hash hasher.hash computes for it);
+// trie2 only — legacy nodes carry plain felts = 'h'. Emb is the embedded node itself.
 type Child struct {
-	T string `json:"tag"`
-	F string `json:"felt"` // hex, no prefix
+	T   string `json:"tag"`
+	F   string `json:"felt"` // hex, no prefix
+	Emb *PNode `json:"embedded,omitempty"`
 }
 
 func mkChild(tag byte, f *felt.Felt) Child { return Child{T: string(tag), F: fhex(f)} }
@@ -281,6 +283,23 @@ func fromTrie2(ps *trie2.ProofNodeSet) Proof {
 
 func toT2Child(c Child) trienode.Node {
 	switch c.tag() {
+	case 'e', 'p':
+		// an embedded *BinaryNode / *EdgeNode; 'e': nodeFlag.Hash set to F, 'p': no cached hash
+		n := c.Emb
+		var cache *trienode.HashNode
+		if c.tag() == 'e' {
+			h := trienode.HashNode(hexFelt(c.F))
+			cache = &h
+		}
+		if n.Kind == "B" {
+			b := &trienode.BinaryNode{Children: [2]trienode.Node{toT2Child(n.L), toT2Child(n.R)}, Flags: trienode.NewNodeFlag()}
+			b.Flags.Hash = cache
+			return b
+		}
+		pb := bitsToBig(n.Path).FillBytes(make([]byte, 32))
+		e := &trienode.EdgeNode{Child: toT2Child(n.C), Path: new(trieutils.Path).SetBytes(uint8(len(n.Path)), pb), Flags: trienode.NewNodeFlag()}
+		e.Flags.Hash = cache
+		return e
 	case 'n':
 		return nil
 	case 'v':
@@ -330,6 +349,8 @@ func classify(v *felt.Felt, err error, panicked bool) string {
 		return "err:mismatch"
 	case strings.Contains(err.Error(), "key length less than"):
 		return "err:keylen"
+	case strings.Contains(err.Error(), "value node before the key is consumed"):
+		return "err:earlyvalue"
 	default:
 		return "err:other"
 	}
@@ -338,38 +359,39 @@ func classify(v *felt.Felt, err error, panicked bool) string {
 // realVerify runs trie.VerifyProof / trie2.VerifyProof (both fix the key length to 251 bits).
 func realVerify(impl string, hf crypto.HashFn, root *felt.Felt, keyBits string, p Proof) string {
 	key := bitsToFelt(keyBits)
-	var v felt.Felt
-	var err error
-	var perr error
-	var panicked bool
-	finished := false
-	for _, d := range []time.Duration{verifyDeadline, 2 * verifyDeadline} {
-		var v2 felt.Felt
-		var err2, perr2 error
-		var panicked2 bool
-		finished = lib.WithDeadline(d, func() {
-			perr2, panicked2, _ = lib.Try(func() error {
-				if impl == "legacy" {
-					v2, err2 = trie.VerifyProof(root, &key, toLegacy(p), hf)
-				} else {
-					v2, err2 = trie2.VerifyProof(root, &key, toTrie2(p), hf)
-				}
+	return realVerifyFelt(impl, hf, root, &key, p, []time.Duration{verifyDeadline, 2 * verifyDeadline})
+}
+
+// realVerifyFelt: the key as a felt (may exceed 251 bits), explicit deadlines (a call that exceeds
+// all of them is a "hang"; its goroutine is abandoned).
+func realVerifyFelt(impl string, hf crypto.HashFn, root, key *felt.Felt, p Proof, deadlines []time.Duration) string {
+	return realVerifyWith(deadlines, func() (felt.Felt, error) {
+		if impl == "legacy" {
+			return trie.VerifyProof(root, key, toLegacy(p), hf)
+		}
+		return trie2.VerifyProof(root, key, toTrie2(p), hf)
+	})
+}
+
+func realVerifyWith(deadlines []time.Duration, call func() (felt.Felt, error)) string {
+	for _, d := range deadlines {
+		var v felt.Felt
+		var err error
+		var panicked bool
+		done := lib.WithDeadline(d, func() {
+			_, panicked, _ = lib.Try(func() error {
+				v, err = call()
 				return nil
 			})
 		})
-		if finished {
-			v, err, perr, panicked = v2, err2, perr2, panicked2
-			break
+		if done {
+			if panicked {
+				return "panic"
+			}
+			return classify(&v, err, false)
 		}
 	}
-	if !finished {
-		return "hang"
-	}
-	if panicked {
-		_ = perr
-		return "panic"
-	}
-	return classify(&v, err, false)
+	return "hang"
 }
 
 // sameAnswer compares a model answer with an implementation answer: results exactly; error
@@ -378,8 +400,6 @@ func sameAnswer(model, impl string) bool {
 	if model == impl {
 		return true
 	}
-	if model == "err:earlyvalue" && strings.HasPrefix(impl, "err:") {
-		return true
-	}
-	return false
+	// the model's iteration bound is its rendering of a call that never returns
+	return model == "err:fuel" && impl == "hang"
 }
